@@ -113,7 +113,19 @@ def queues_map(prog: Program) -> str:
     def find():
         reg = prog.method(META, "register_payload")
         r = runners_map(prog)
-        for n in ast.walk(reg.node):
+        # register_payload and the own synchronous helpers it delegates to (_queue_payloads, _start_payloads, ...)
+        fns, todo = [], [reg]
+        while todo:
+            f = todo.pop(0)
+            if f in fns:
+                continue
+            fns.append(f)
+            for n in ast.walk(f.node):
+                if isinstance(n, ast.Call) and _self_attr(n.func):
+                    g = prog.lookup_method(reg.cls, _self_attr(n.func))
+                    if g is not None and g.cls is reg.cls and not g.is_async and g.name != "register_payload":
+                        todo.append(g)
+        for n in (x for f in fns for x in ast.walk(f.node)):
             a = None
             if isinstance(n, ast.Call) and isinstance(n.func, ast.Attribute) and n.func.attr in ("setdefault", "get") and _self_attr(n.func.value):
                 a = _self_attr(n.func.value)
@@ -135,7 +147,16 @@ def supervisor(prog: Program):
             if isinstance(n, ast.Call) and prog.resolve(run.module, n.func) == "ext:asyncio.run" and n.args and isinstance(n.args[0], ast.Call):
                 a = _self_attr(n.args[0].func)
                 if a:
-                    return prog.method(META, a)
+                    fi = prog.method(META, a)
+                    # own coroutines it awaits as statements (`await self._watch_runners(tasks)`) run in place
+                    flat = util.flatten_helpers(prog, fi, awaited=True)
+                    if ast.dump(flat) != ast.dump(fi.node):
+                        from .index import FuncInfo
+
+                        for x in ast.walk(flat):
+                            x._file = getattr(fi.node, "_file", None)
+                        return FuncInfo(fi.qual, flat, fi.module, fi.cls)
+                    return fi
         raise Undecided("MetaRunner.run does not drive an own coroutine with asyncio.run", run.node)
 
     return _memo(prog, "supervisor", find)
@@ -203,13 +224,15 @@ def load_services(prog: Program):
 
     def find():
         run = prog.func("cobald.daemon.core.main:run")
+        # (private helpers of the module that run() calls as statements are read in place: _start_services(...))
+        run_node = util.flatten_helpers(prog, run)
         partials = {}
-        for n in ast.walk(run.node):
+        for n in ast.walk(run_node):
             if isinstance(n, ast.Assign) and isinstance(n.value, ast.Call) and prog.resolve(run.module, n.value.func) == "ext:functools.partial" and n.value.args:
                 for t in n.targets:
                     if isinstance(t, ast.Name):
                         partials[t.id] = n.value.args[0]
-        for n in ast.walk(run.node):
+        for n in ast.walk(run_node):
             if isinstance(n, ast.Call) and isinstance(n.func, ast.Attribute) and n.func.attr == "adopt" and n.args:
                 # the payload is the first argument; a function found in a later position is still "the loader"
                 # (the rule then reports that it is not what is adopted)
